@@ -24,11 +24,7 @@ impl SDJWTDisclosure  {
 
         #[cfg(feature = "mock_salts")]
         let salt = {
-            value_str = value_str
-                .replace(":[", ": [")
-                .replace(',', ", ")
-                .replace("\":", "\": ")
-                .replace("\":  ", "\": ");
+            value_str = python_style_spacing(&value_str);
             generate_salt_mock()
         };
 
@@ -50,6 +46,30 @@ impl SDJWTDisclosure  {
             hash,
         }
     }
+}
+
+/// Mimics the separators of Python's json.dumps (", " and ": ") without touching string literals.
+#[cfg(feature = "mock_salts")]
+fn python_style_spacing(json: &str) -> String {
+    let mut out = String::with_capacity(json.len() + 16);
+    let (mut in_string, mut escaped) = (false, false);
+    for c in json.chars() {
+        out.push(c);
+        if in_string {
+            if escaped {
+                escaped = false;
+            } else if c == '\\' {
+                escaped = true;
+            } else if c == '"' {
+                in_string = false;
+            }
+        } else if c == '"' {
+            in_string = true;
+        } else if c == ',' || c == ':' {
+            out.push(' ');
+        }
+    }
+    out
 }
 
 fn escape_unicode_chars(s: &str) -> String {
